@@ -136,10 +136,21 @@ def sink_info(e, gated=False, info=None):
     return info
 
 
-def harness(e):
+# expressions whose single query exceeds the 10 GB cap (measured: 7.5 M variables / 33 M clauses, "solver ran out of
+# memory"): decided as two queries, with and without metadata
+BIG = {"au0au1u2", "aau0u1u2", "ou0ou1u2", "au0ou1u2", "ou0au1u2", "aou0u1u2"}
+
+
+def big(le):
+    return name(le) in BIG   # le: labelled tree
+
+
+def harness(e, half=None):
+    """half: None = both phases in one query; 'm' = make_writer_for(meta) only; 'p' = make_writer() only"""
     ps = params(e)
     assert len(ps) <= 8
-    lines = ["/// `%s`" % text(e), "#[kani::proof]", "#[kani::unwind(2)]", "fn c13_alg_%s() {" % name(e),
+    lines = ["/// `%s`%s" % (text(e), {None: "", "m": " — make_writer_for(meta) half", "p": " — make_writer() half"}[half]),
+             "#[kani::proof]", "#[kani::unwind(2)]", "fn c13_alg_%s%s() {" % (name(e), "_" + half if half else ""),
              "    let lr = any_level_rank();"]
     for k, i in ps:
         if k in ("x", "n", "u"):
@@ -148,7 +159,12 @@ def harness(e):
             lines.append("    let p%d: u8 = kani::any(); PRED[%d].store(p%d, Ordering::Relaxed);" % (i, i, i))
         if k == "u":
             lines.append("    let sel%d = any_sel();" % i)
-    lines.append("    let want = c13_drive!(\n        %s,\n        lr,\n        %s,\n        %s\n    );" % (real(e), den(e, True), den(e, False)))
+    if half is None:
+        lines.append("    let want = c13_drive!(\n        %s,\n        lr,\n        %s,\n        %s\n    );" % (real(e), den(e, True), den(e, False)))
+    elif half == "m":
+        lines.append("    let want = c13_drive_meta!(\n        %s,\n        lr,\n        %s\n    );" % (real(e), den(e, True)))
+    else:
+        lines.append("    let want = c13_drive_plain!(\n        %s,\n        lr,\n        %s\n    );" % (real(e), den(e, False)))
     for s, can_skip in sorted(sink_info(e).items()):
         lines.append("    kani::cover!(want.n[%d] > 0);" % s)
         if can_skip:
@@ -179,7 +195,11 @@ def expressions(tier):
         nm = "c13_alg_" + name(le)
         if nm not in seen:
             seen.add(nm)
-            out.append((nm, t, text(le), le))
+            if big(le):
+                out.append((nm + "_m", t, text(le) + " [make_writer_for(meta) half]", le, "m"))
+                out.append((nm + "_p", t, text(le) + " [make_writer() half]", le, "p"))
+            else:
+                out.append((nm, t, text(le), le, None))
 
     # quick: every concrete expression of depth <= 1, the hand-picked ones, every `u`-collapsed tree with <= 2 leaves
     # to depth 2 and seven of depth 3 (each stands for all 3^k choices of its unary nodes)
@@ -216,8 +236,8 @@ def generate(path, tier):
     ex = expressions(tier)
     with open(path, "w") as f:
         f.write(HEAD)
-        for nm, t, txt, le in ex:
-            f.write(harness(le) + "\n\n")
+        for nm, t, txt, le, half in ex:
+            f.write(harness(le, half) + "\n\n")
     return len(ex)
 
 
@@ -227,5 +247,5 @@ if __name__ == "__main__":
         ex = expressions(t)
         print(t, len(ex))
     if len(sys.argv) > 1:
-        for nm, t, txt, _ in expressions("thorough"):
+        for nm, t, txt, _, _ in expressions("thorough"):
             print(nm, t, txt)
